@@ -1,5 +1,5 @@
 (* Chk_C15.v — case type and checker for C15 (stale byte-code cleanup). *)
-From ZT Require Import Base Tree Bytecode.
+From ZT Require Import Base Tree Bytecode BytecodeAfter.
 
 Record case := {
   tree : list entry;        (* the scratch directory before the run *)
@@ -45,6 +45,14 @@ Definition c15_ok (c : case) : bool :=
   && forallb (fun p => Bool.eqb (pmem p (deleted c)) (should_delete c files p)) files
   && forallb (fun p => pmem p files) (deleted c).
 
+(* the tree the model leaves behind (BytecodeAfter.after_dir) against the files that survived, when the scratch root is the one test path *)
+Definition after_agrees (c : case) : bool :=
+  match roots c, keep c with
+  | [[]], false => pset_eq (all_files (after_dir (ign c) (tree c)))
+                           (filter (fun p => negb (pmem p (deleted c))) (all_files (tree c)))
+  | _, _ => true
+  end.
+
 Definition check (c : case) : nat :=
-  bit (negb (pset_eq (model_deleted c) (deleted c))) 1
+  bit (negb (pset_eq (model_deleted c) (deleted c) && after_agrees c)) 1
   + bit (negb (c15_ok c)) 2.
